@@ -90,9 +90,9 @@ func (f *ReadLine) Call(s *slip.Scope, args slip.List, depth int) slip.Object {
 					}
 					return slip.Values{result, slip.True}
 				}
-				ss, _ := is.(slip.Stream)
-				slip.StreamPanic(s, depth, ss, "read failed. %s", err)
 			}
+			ss, _ := is.(slip.Stream)
+			slip.StreamPanic(s, depth, ss, "read failed. %s", err)
 		}
 		if r == '\n' {
 			break
